@@ -260,6 +260,71 @@ Section Bisect.
     unfold pos_desc in *. rewrite rev_length, seq_length in H. lia.
   Qed.
 
+  (** * the candidate set shrinks with every answer *)
+  Lemma cand_shrink st x e y : In x (candidates g t R st) ->
+    is_candidate t R (mark st x e) y = true -> is_candidate t R st y = true /\ y <> x.
+  Proof.
+    intros Hx Hy. apply candidates_in in Hx. destruct Hx as [Lx Hx].
+    apply is_candidate_spec in Hx. destruct Hx as (HxR & (r0 & Hr0 & Hxr0) & Hxg & Hxb & Hxs).
+    apply is_candidate_spec in Hy. destruct Hy as (HyR & (r' & Hr' & Hyr') & Hyg & Hyb & Hys).
+    destruct e; simpl in *.
+    - split.
+      + apply is_candidate_spec. repeat split; try assumption; [now exists r'|].
+        intros (z & Hz & Hyz). apply Hyg. exists z. split; [now right|assumption].
+      + intros ->. apply Hyg. exists x. split; [now left|constructor].
+    - split; [|intros ->; apply Hyb; now left].
+      apply is_candidate_spec. split; [assumption|]. split.
+      + apply roots_of_spec in Hr'; [|assumption]. destruct Hr' as [[<-|Hin] Hmin].
+        * exists r0. split; [assumption|]. eapply anc_trans; eassumption.
+        * exists r'. split; [|assumption]. apply roots_of_spec; [assumption|]. split; [assumption|].
+          intros z Hz Hzr. apply Hmin; [now right|assumption].
+      + split; [assumption|]. split; [|assumption]. intros C. apply Hyb. now right.
+    - split; [|intros ->; apply Hys; now left].
+      apply is_candidate_spec. repeat split; try assumption; [now exists r'|].
+      intros C. apply Hys. now right.
+  Qed.
+
+  Lemma filter_strict_length (f f' : nat -> bool) l x :
+    (forall y, f' y = true -> f y = true) -> In x l -> f x = true -> f' x = false ->
+    length (filter f' l) < length (filter f l).
+  Proof.
+    intros Sub. induction l as [|y l IH]; intros Hx Fx F'x; [contradiction|]. simpl.
+    assert (Le : length (filter f' l) <= length (filter f l)).
+    { clear - Sub. induction l as [|z l IH]; simpl; [lia|].
+      destruct (f' z) eqn:E; [rewrite (Sub z E); simpl; lia|]. destruct (f z); simpl; lia. }
+    destruct Hx as [->|Hx].
+    - rewrite Fx, F'x. simpl. lia.
+    - specialize (IH Hx Fx F'x). destruct (f' y) eqn:E; [rewrite (Sub y E); simpl; lia|].
+      destruct (f y); simpl; lia.
+  Qed.
+
+  Lemma candidates_decrease st x e : next_commit g t R st = Some x ->
+    length (candidates g t R (mark st x e)) < length (candidates g t R st).
+  Proof.
+    intros Ex. apply next_commit_in in Ex. pose proof Ex as Hx. apply candidates_in in Hx.
+    destruct Hx as [Lx Hx].
+    change (candidates g t R (mark st x e)) with (filter (is_candidate t R (mark st x e)) (pos_desc g)).
+    change (candidates g t R st) with (filter (is_candidate t R st) (pos_desc g)).
+    apply filter_strict_length with (x := x).
+    - intros y Hy. now apply (cand_shrink st x e y Ex).
+    - now apply pos_desc_in.
+    - assumption.
+    - destruct (is_candidate t R (mark st x e) x) eqn:E; [|reflexivity].
+      destruct (cand_shrink st x e x Ex E) as [_ N]. congruence.
+  Qed.
+
+  (** hence at most as many questions as there were candidates at the start *)
+  Lemma run_evals oracle : forall fuel st trace tr res,
+    run g t R fuel oracle st trace = Some (tr, res) ->
+    length tr <= length trace + length (candidates g t R st).
+  Proof.
+    induction fuel as [|fuel IH]; intros st trace tr res E; [discriminate|].
+    simpl in E. destruct (next_commit g t R st) as [x|] eqn:Ex.
+    - apply IH in E. pose proof (candidates_decrease st x (oracle x) Ex). simpl in E. lia.
+    - destruct (finish g t st) as [r|]; [|discriminate]. injection E as <- <-.
+      rewrite rev_length. lia.
+  Qed.
+
   (** * soundness and exactness against a truth that is consistent with history *)
   Section Truth.
     Variables isbad skipb : nat -> bool.
@@ -861,3 +926,15 @@ Qed.
 Lemma checker_sound_thm (g : graph) (R : list nat) : forall bad skip trace r,
   run_ok g (ancsets g) R bad skip trace r = true -> run_holds g R bad skip trace r.
 Proof. intros bad skip trace r. apply run_ok_sound. Qed.
+
+Lemma terminates_thm (g : graph) (W : wf g) (R : list nat) : forall (ev : nat -> evaluation),
+  (exists r, bisect g (ancsets g) R ev = Some r) /\
+  (forall st x e, next_commit g (ancsets g) R st = Some x ->
+     length (candidates g (ancsets g) R (mark st x e)) < length (candidates g (ancsets g) R st)) /\
+  (forall tr res, bisect g (ancsets g) R ev = Some (tr, res) ->
+     length tr <= length (candidates g (ancsets g) R (init_state g (ancsets g) R))).
+Proof.
+  intros ev. split; [apply (bisect_total g W R)|]. split.
+  - intros st x e. apply (candidates_decrease g W R).
+  - intros tr res E. apply (run_evals g W R) in E. simpl in E. lia.
+Qed.
